@@ -83,6 +83,8 @@ class Rewriter(ast.NodeTransformer):
         self.generic_visit(node)
         if isinstance(node.op, ast.Mod):
             return ast.copy_location(ast.Call(ast.Name('_sx_mod', ast.Load()), [node.left, node.right], []), node)
+        if isinstance(node.op, ast.Mult):
+            return ast.copy_location(ast.Call(ast.Name('_sx_mul', ast.Load()), [node.left, node.right], []), node)
         return node
 
     def visit_Compare(self, node):
@@ -140,6 +142,7 @@ def instrument(src, path, modname):
 def inject(d):
     d['_sx_getitem'] = core.sx_getitem
     d['_sx_mod'] = core.sx_mod
+    d['_sx_mul'] = core.sx_mul
     d['_sx_setitem'] = core.sx_setitem
     d['_sx_contains'] = core.sx_contains
     d['_sx_callm'] = core.sx_callm
